@@ -14,6 +14,7 @@ LEVEL = 'model_checking'
 
 ARR = {'x': [1, 2], 'y': [], 'n': None}
 OBJ = {'x': {'a': 1}, 'y': {}, 'n': None}
+ARR2 = {'x': [1, 0], 'y': [True, False], 'n': [1.0, 0.0]}      # equal as Python lists, different as JSON
 
 
 import decimal
@@ -28,6 +29,8 @@ def mkrow(k, v, cols, phase=None):
     r = {'k': NUMKEY[k] if 'numkey' in cols else k, 'v': v if phase is None else VPHASE[phase][v]}
     if 'arr' in cols:
         r['arr'] = copy.deepcopy(ARR[v])
+    if 'arr2' in cols:
+        r['arr'] = copy.deepcopy(ARR2[v])
     if 'obj' in cols:
         r['obj'] = copy.deepcopy(OBJ[v])
     return r
@@ -96,7 +99,7 @@ def model_apply(table, mode, batch, pk):
 def do_dump(dbpath, cfg, mode, batch, phase=None):
     cols = cfg['cols']
     fields = [('k', 'number' if 'numkey' in cols else 'string'), ('v', 'integer' if phase == 0 else 'string')] + \
-        ([('arr', 'array')] if 'arr' in cols else []) + ([('obj', 'object')] if 'obj' in cols else [])
+        ([('arr', 'array')] if ('arr' in cols or 'arr2' in cols) else []) + ([('obj', 'object')] if 'obj' in cols else [])
     rows = [mkrow(k, v, cols, phase) for k, v in batch]
     st = mkstate([('r', fields, rows)] + ([('r2', fields, copy.deepcopy(rows))] if (cfg.get('two') or cfg.get('unmapped')) else []))
     if cfg['pk']:
@@ -275,7 +278,7 @@ def prebuilt_history(args):
         flows, table, label = [], None, 'config %s, dumpers built up front, history %s' % (cj(cfg), ' ; '.join('%s%s' % (m, BATCHES[b]) for m, b in hist))
         for mode, bi in hist:
             cols = cfg['cols']
-            fields = [('k', 'string'), ('v', 'string')] + ([('arr', 'array')] if 'arr' in cols else []) + ([('obj', 'object')] if 'obj' in cols else [])
+            fields = [('k', 'string'), ('v', 'string')] + ([('arr', 'array')] if ('arr' in cols or 'arr2' in cols) else []) + ([('obj', 'object')] if 'obj' in cols else [])
             st = mkstate([('r', fields, [mkrow(k, v, cols) for k, v in BATCHES[bi]])])
             tbl = {'resource-name': 'r', 'mode': mode}
             if mode == 'update':
@@ -379,6 +382,7 @@ def configs(tier):
     for pk in (False, True):
         out.append({'pk': pk, 'batch_size': 1000, 'bloom': True, 'cols': [], 'schema_change': True, 'modes': ['rewrite']})
     out.append({'pk': False, 'batch_size': 1000, 'bloom': True, 'cols': [], 'unmapped': True})
+    out.append({'pk': False, 'batch_size': 1000, 'bloom': True, 'cols': ['arr2']})
     out.append({'pk': True, 'batch_size': 1000, 'bloom': True, 'cols': [], 'keys_none': True})
     out.append({'pk': False, 'batch_size': 1, 'bloom': False, 'cols': ['arr', 'obj'], 'keys_always': True})
     # one step writing two tables with the same column names
